@@ -3,19 +3,43 @@
  * For every request inside the domain of the property (DESIGN.md, section 4, C14) the generated
  * profile is judged on: phase times, start state, end state (one-sided limit at T), hold outside
  * [0,T], continuity across every phase boundary (one-sided limits), velocity / acceleration / jerk
- * limits at boundaries, extrema and 300 uniform + 100 random instants, and "no jump between two
- * neighbouring samples" (a consequence of continuity + the limit on the next derivative).
+ * limits at boundaries, extrema and 301 uniform + 100 random instants, and "no jump between two
+ * neighbouring grid samples" (a consequence of continuity + the limit on the next derivative, which
+ * also sees a jump at an instant that is not one of the recorded boundaries).
  *
- * Tolerances (DESIGN.md, calibrated there; re-measured here over seeds 1..8, see bottom):
- *   unit_p = eps*S_p + vhat*dt,  S_p = |p0|+|p1|+vhat*T+vhat^2/ahat (+ vhat*ahat/jhat for bell)
+ * Tolerances.  The property states none, so a clause is refuted only beyond C*unit with
+ *   unit_p = eps*S_p + vhat*dt,  S_p = |p0|+|p1|+vhat*T+vhat^2/alo (+ vhat*ahat/jhat for bell)
  *   unit_v = eps*S_v + ahat*dt,  S_v = vhat+ahat*T
  *   unit_a = eps*S_a + jhat*dt,  S_a = ahat+jhat*T                       (bell only)
  *   unit_t = eps*S_p/vhat + dt                                           (phase durations)
- *   hats   = largest magnitudes recorded in the generated context,
- *   dt     = largest change of any recorded phase time when the generator is re-run with each of
- *            the seven inputs moved by +-2 ulps (measured conditioning of the request),
- *   tolerance = C*unit, C = 16 (trapezoid), C = 256 (bell).
+ *   vhat, ahat, jhat = largest |velocity|, |acceleration|, |jerk| recorded in the generated context,
+ *   alo  = smallest non-zero |acceleration| recorded in the context,
+ *   dt   = largest change of any recorded phase time when the generator is re-run with each of
+ *          the seven inputs moved by +-2 ulps (measured conditioning of the request),
+ *   C = 16 (trapezoid), C = 256 (bell)                                   [DESIGN.md]
  * Continuity and end state use nextafter(b,-inf) versus b, never a finite offset.
+ *
+ * Three refinements of the DESIGN.md scale were necessary; with the scale taken literally (ahat in
+ * the quotient, no extra terms) the branch-targeted workload that DESIGN.md asks for alarms on the
+ * unchanged tree, and each alarm is fully explained by rounding in the formulas of the generator:
+ *  (a) vhat^2/a uses alo, not ahat: t = (sqrt(v0^2+2 p a)-v0)/a has absolute error eps*vhat/a for the
+ *      acceleration a of the phase in use, which may be the smaller one (witness: vm=17.38 ac=9.68
+ *      de=-0.0311 p0=0 p1=0.02047 v0=17.09 v1=2.66e-4: end position off by 1.45e-13 = 21.6*eps*S_p(ahat)).
+ *  (b) trapezoid accel-only branch, velocity-limit clause only: + eps*vhat*(|ac|+|de|)/|de|.  The branch
+ *      is chosen by vc2 <= v1^2 and vc2-v1^2 = |de|/(|ac|+|de|)*(v1rec^2-v1^2), so the rounding of vc2 is
+ *      amplified by (|ac|+|de|)/|de| in the recorded end speed sqrt(v0^2+2 p ac) (witness: vm=v1=799.124366153
+ *      ac=683.57 de=-0.006134 p0=255090.883 p1=255557.986 v0=0: end speed 799.124366155, 2e-12 relative above vm).
+ *  (c) bell single-phase branches (ta<0 or td<0 in step 4): S_v += jhat*T^2, S_p += jhat*T^3.  The jerk
+ *      time is (jm*p - sqrt(jm*(jm*p^2 -+ (v1-v0)(v0+v1)^2)))/(jm*(v0+v1)), a difference of nearly equal
+ *      numbers with absolute error ~eps*p/(v0+v1) = eps*T/2; the reached acceleration jm*tj is then off by
+ *      eps*jm*T, velocity by eps*jm*T^2, position by eps*jm*T^3 (witness: jm=1.3223 am=0.0023067 vm=245.34
+ *      p0=0 p1=-21249.7595 v0=-9.9012 v1=0: velocity step 1.29e-9 at t-tdj, T=4292; eps*jm*T^2 = 5.4e-9).
+ *      The +-2 ulp re-runs do not reveal (a)-(c): the rounding noise is "frozen" (it moves with the inputs).
+ *
+ * Calibration on the unchanged tree, VERIF_SEED 1..8 quick + 1..5 thorough (19.7e6 judged profiles):
+ * worst error/unit per clause  trapezoid 1.45 (end/continuity velocity, accel-decel)  -> C=16  (11x head-room)
+ *                              bell      1.47 (position continuity, reduced-am branch) -> C=256 (175x head-room)
+ * unit_t (new here): worst 0.50 (trapezoid), 0.20 (bell).
  */
 #define VF_PROP "C14"
 #include "vf_common.h"
